@@ -19,7 +19,7 @@ from mc import explore
 LEVEL = 'model_checking'
 SHAPES = [(3,), (1,), (1, 4), (2, 3), (2, 1, 3), (2, 2, 2, 2), (2, 2, 2, 2, 2)]
 VALUES = [0.0, 1.0, -1.0, 0.1, 1.0 / 3.0, 1e-300, 1e300, 5e-324, float('nan'), float('inf'), float('-inf'), -0.0, 123456789.123456789]
-LABELSETS = [None, 'plain', 'spaces', 'foldedword', 'punct']
+LABELSETS = [None, 'plain', 'spaces', 'foldedword', 'punct', 'blanks', 'blanks2']
 COMMENTSETS = [[], ['one'], ['  leading and trailing  ', 'two'], ['has # inside', '', '#starts with hash'],
                ['a', 'b', 'c', 'd', 'e'], ['folded 3 unfolded', '1 2 3']]
 SCRATCH = os.path.join(os.path.dirname(os.path.dirname(os.path.abspath(__file__))), '.scratch')
@@ -34,6 +34,11 @@ def _labels(kind, d):
         return ['pop %d x' % i if i % 2 == 0 else ' lead%d' % i for i in range(d)]
     if kind == 'foldedword':
         return ['my folded pop' if i == 0 else 'unfolded' if i == 1 else 'folded' for i in range(d)]
+    if kind == 'blanks':
+        # runs of blanks, a tab, leading and trailing blanks, a label that is one blank
+        return [['East  Africa', 'a\tb', 'CEU ', '  A', ' '][i % 5] for i in range(d)]
+    if kind == 'blanks2':
+        return [['CEU ', '  A', 'East   Africa', ' ', 'a\t\tb'][i % 5] for i in range(d)]
     if kind == 'punct':
         return ["a-b_c.%d(e)'f" % i for i in range(d)]
 
@@ -93,7 +98,8 @@ def case_values(col, p):
                 fs = dadi.Spectrum(data.copy(), mask_corners=False)
                 info = dict(p, idx=idx, value=repr(v))
                 try:
-                    fs.to_file(fn, precision=prec)
+                    # the documented alias tofile is the same writer (every other value goes through it)
+                    (fs.tofile if (sum(idx) + VALUES.index(v)) % 2 else fs.to_file)(fn, precision=prec)
                 except Exception as e:
                     col.tick(transitions=1)
                     col.violation('C14:to_file:%s:raises' % ('gz' if gz else 'plain'), info, '%s: %s' % (type(e).__name__, e))
